@@ -98,8 +98,13 @@ func runUpstreamFamily(s *Sim, prop string) {
 			return
 		}
 	}
+	hookDelay := Pick(t, "hook-delay", time.Duration(0), 0, 0, time.Millisecond, 5*time.Millisecond)
 	for _, h := range y.Ups {
 		h.ReuseScratch = reuseScratch
+		h.HookDelay = hookDelay
+	}
+	if hookDelay > 0 {
+		s.Stat("env.slow-application-hooks")
 	}
 	s.BurstMax = burst
 
@@ -307,6 +312,12 @@ func runUpstreamFamily(s *Sim, prop string) {
 		y.PumpUntil(func() bool { return cop.harvested }, time.Second, 60*time.Second)
 	}
 	y.teardown()
+	if hookDelay > 0 {
+		// let the event dispatchers finish what they still hold
+		for i := 0; i < 20; i++ {
+			s.Advance(time.Second)
+		}
+	}
 
 	s.Nontrivial()
 	switch prop {
